@@ -29,7 +29,7 @@ class C20(Prop):
             raise RuntimeError("cannot build /repo/agent: " + log[-1500:])
         tool = C.ensure_tool("lifecycle", "./cmd/lifecycle")
         outp = os.path.join(ctx.work, "life.jsonl")
-        rc, out, dt = C.run([tool, "-agent", agent, "-out", outp, "-tier", ctx.tier], timeout=1800)
+        rc, out, dt = C.run([tool, "-agent", agent, "-out", outp, "-tier", ctx.tier], timeout=1800, preexec_fn=C.default_signals)
         rows = C.read_jsonl(outp)
         if rc != 0 or not rows:
             raise RuntimeError("lifecycle harness did not run: rc=%s %s" % (rc, out[-1500:]))
